@@ -26,7 +26,7 @@ ASSUMPTIONS = [
     'c_k within 1e-9 relative of t is ambiguous; c_k == t is decisive only if the value is robust under three summation orders of the reference recomputation',
 ]
 BOUNDS = {
-    'quick': {'A': 'n<=3 complete', 'G12Y013 (gaps 1-2, y in 0,1,3)': 'n=4,5 complete', 'tie thresholds/chain': 3, 'Y013': 'n=6 (2 metrics)'},
+    'quick': {'A': 'n<=3 complete', 'G12Y013 (gaps 1-2, y in 0,1,3)': 'n=4,5 complete', 'tie thresholds/chain': 3, 'Y013': 'n=6 (2 metrics)', 'trace windows': 'web0_reduced.csv w=10, usr0.csv[::64] w=12'},
     'thorough': {'A': 'n<=4 complete', 'A12': 'n=5 complete', 'G12Y013': 'n=6 complete', 'B': 'n=5', 'Y013': 'n=7 (2 metrics)', 'tie thresholds/chain': 4},
 }
 TECHNIQUE = 'bounded-exhaustive differential exploration: grdp / mp_grdp / min_point_rdp versus the rdp_fixed chain and fresh-cache global costs, with exact-tie thresholds'
@@ -45,6 +45,7 @@ def units(tier, seed):
         plan = [('A', 3, 4), ('G12Y013', 4, 8), ('G12Y013', 5, 128), ('Y013', 6, 16)]
     else:
         plan = [('A', 3, 4), ('A', 4, 128), ('A12', 5, 256), ('G12Y013', 6, 512), ('B', 5, 256), ('Y013', 7, 64)]
+    plan += [('Tweb0r', 10, 8), ('Tusr0s64', 12, 16)] if tier == 'quick' else [('Tweb0r', 10, 8), ('Tweb0r', 20, 8), ('Tusr0s64', 12, 16), ('Tusr0s64', 24, 16)]
     b = curves.bonus(seed, curves.A12)
     plan.append((b.name, 4, 8))
     return [('curves', prof, n, k, K, 3 if tier == 'quick' else 4) for prof, n, K in plan for k in range(K)]
